@@ -56,6 +56,82 @@ static echs_evstrm_t parse_tree(void)
 	return NULL;
 }
 
+/* ---------------------------------------------------------------- recurrence rule ops */
+static void plist_u31(const char *k, bituint31_t b)
+{
+	unsigned v; int first = 1; printf(" %s=", k);
+	for (bitint_iter_t i = 0; (v = bui31_next(&i, b), i);) { printf("%s%u", first ? "" : ",", v); first = 0; }
+}
+static void plist_u63(const char *k, bituint63_t b)
+{
+	unsigned v; int first = 1; printf(" %s=", k);
+	for (bitint_iter_t i = 0; (v = bui63_next(&i, b), i);) { printf("%s%u", first ? "" : ",", v); first = 0; }
+}
+static void plist_31(const char *k, bitint31_t b)
+{
+	int v; int first = 1; printf(" %s=", k);
+	for (bitint_iter_t i = 0; (v = bi31_next(&i, b), i);) { printf("%s%d", first ? "" : ",", v); first = 0; }
+}
+static void plist_63(const char *k, bitint63_t b)
+{
+	int v; int first = 1; printf(" %s=", k);
+	for (bitint_iter_t i = 0; (v = bi63_next(&i, b), i);) { printf("%s%d", first ? "" : ",", v); first = 0; }
+}
+static void plist_383(const char *k, const bitint383_t *b)
+{
+	int v; int first = 1; printf(" %s=", k);
+	for (bitint_iter_t i = 0; (v = bi383_next(&i, b), i);) { printf("%s%d", first ? "" : ",", v); first = 0; }
+}
+static void plist_447(const char *k, const bitint447_t *b)
+{
+	int v; int first = 1; printf(" %s=", k);
+	for (bitint_iter_t i = 0; (v = bi447_next(&i, b), i);) { printf("%s%d", first ? "" : ",", v); first = 0; }
+}
+static void print_rule(const struct rrulsp_s *r)
+{
+	printf("freq=%d scale=%d count=%d inter=%u until=%016llx shift=%d", (int)r->freq, (int)r->scale, r->count, r->inter,
+	       (unsigned long long)r->until.u, (int)r->shift);
+	plist_31("dom", r->dom); plist_383("doy", &r->doy); plist_447("dow", &r->dow); plist_u31("mon", r->mon);
+	plist_63("wk", r->wk); plist_u31("H", r->H); plist_u63("M", r->M); plist_u63("S", r->S);
+	plist_383("pos", &r->pos); plist_383("easter", &r->easter);
+}
+/* rebuild a rule from the `key=value` tokens print_rule() writes (values are inserted in the order listed) */
+static struct rrulsp_s read_rule(char **tk, int n)
+{
+	struct rrulsp_s r;
+	memset(&r, 0, sizeof(r));
+	r.count = -1; r.inter = 1; r.until = echs_max_instant();
+	for (int i = 0; i < n; i++) {
+		char *eq = strchr(tk[i], '=');
+		if (!eq) continue;
+		*eq = 0;
+		const char *k = tk[i]; char *v = eq + 1;
+		if (!strcmp(k, "freq")) r.freq = (echs_freq_t)atoi(v);
+		else if (!strcmp(k, "scale")) r.scale = (echs_scale_t)atoi(v);
+		else if (!strcmp(k, "count")) r.count = atoi(v);
+		else if (!strcmp(k, "inter")) r.inter = strtoul(v, NULL, 10);
+		else if (!strcmp(k, "until")) r.until.u = strtoull(v, NULL, 16);
+		else if (!strcmp(k, "shift")) r.shift = (echs_shift_t)atoi(v);
+		else {
+			for (char *p = strtok(v, ","); p; p = strtok(NULL, ",")) {
+				int x = atoi(p);
+				if (!strcmp(k, "dom")) r.dom = ass_bi31(r.dom, x);
+				else if (!strcmp(k, "doy")) ass_bi383(&r.doy, x);
+				else if (!strcmp(k, "dow")) ass_bi447(&r.dow, x);
+				else if (!strcmp(k, "mon")) r.mon = ass_bui31(r.mon, x);
+				else if (!strcmp(k, "wk")) r.wk = ass_bi63(r.wk, x);
+				else if (!strcmp(k, "H")) r.H = ass_bui31(r.H, x);
+				else if (!strcmp(k, "M")) r.M = ass_bui63(r.M, x);
+				else if (!strcmp(k, "S")) r.S = ass_bui63(r.S, x);
+				else if (!strcmp(k, "pos")) ass_bi383(&r.pos, x);
+				else if (!strcmp(k, "easter")) ass_bi383(&r.easter, x);
+			}
+		}
+		*eq = '=';
+	}
+	return r;
+}
+
 /* ---------------------------------------------------------------- parser ops */
 static void pnms(const char *k, nummapstr_t x)
 {
@@ -164,6 +240,64 @@ int main(void)
 			/* p.parse HEX | chunk sizes…   (p.lines: also the unfolded lines the parser acted upon) */
 			int bar = 2;
 			do_parse(toks[1], toks + (ntk > bar ? bar + 1 : ntk), ntk > bar + 1 ? ntk - bar - 1 : 0, 4, !strcmp(toks[0], "p.lines"));
+		} else if (!strcmp(toks[0], "r.parse") && ntk >= 2) {
+			/* r.parse HEX(rule text without the RRULE: prefix) : the rule as snarf_rrule() reads it */
+			static char txt[65536]; size_t len = 0;
+			for (char *h = toks[1]; h[0] && h[1] && len + 1 < sizeof(txt); h += 2) { unsigned v; sscanf(h, "%2x", &v); txt[len++] = (char)v; }
+			txt[len] = 0;
+			struct rrulsp_s r = echs_read_rrul(txt, len);
+			print_rule(&r);
+			putchar('\n');
+		} else if (!strcmp(toks[0], "r.fill") && ntk >= 3) {
+			/* r.fill RULE-TOKENS | proto=HEX nti=N : one call of the filler on a cache pre-filled with proto */
+			int bar = 1; while (bar < ntk && strcmp(toks[bar], "|")) bar++;
+			struct rrulsp_s r = read_rule(toks + 1, bar - 1);
+			echs_instant_t proto = {.u = 0}; size_t nti = 64;
+			for (int i = bar + 1; i < ntk; i++) {
+				if (!strncmp(toks[i], "proto=", 6)) proto.u = strtoull(toks[i] + 6, NULL, 16);
+				else if (!strncmp(toks[i], "nti=", 4)) nti = strtoul(toks[i] + 4, NULL, 10);
+			}
+			echs_instant_t *tgt = calloc(2 * GRP_CCH_OFF, sizeof(*tgt));
+			for (size_t j = 0; j < GRP_CCH_OFF; j++) tgt[j] = proto;
+			size_t res = 0;
+			switch (r.freq) {
+			case FREQ_YEARLY: res = rrul_fill_yly(tgt, nti, &r); break;
+			case FREQ_MONTHLY: res = rrul_fill_mly(tgt, nti, &r); break;
+			case FREQ_WEEKLY: res = rrul_fill_wly(tgt, nti, &r); break;
+			case FREQ_DAILY: res = rrul_fill_dly(tgt, nti, &r); break;
+			case FREQ_HOURLY: res = rrul_fill_Hly(tgt, nti, &r); break;
+			case FREQ_MINUTELY: res = rrul_fill_Mly(tgt, nti, &r); break;
+			case FREQ_SECONDLY: res = rrul_fill_Sly(tgt, nti, &r); break;
+			default: break;
+			}
+			printf("n=%zu", res);
+			for (size_t j = 0; j < res && j < 2 * GRP_CCH_OFF; j++) printf("%s%016llx", j ? "," : " ", (unsigned long long)tgt[j].u);
+			putchar('\n');
+			free(tgt);
+		} else if (!strcmp(toks[0], "r.strm") && ntk >= 3) {
+			/* r.strm RULE-TOKENS | from=HEX [zone=NAME] [scale=N] n=N : the rule stream as the parser builds it, N pops */
+			int bar = 1; while (bar < ntk && strcmp(toks[bar], "|")) bar++;
+			struct rrulsp_s r = read_rule(toks + 1, bar - 1);
+			echs_instant_t from = {.u = 0}; size_t n = 10; const char *zone = NULL; int sc = 0;
+			for (int i = bar + 1; i < ntk; i++) {
+				if (!strncmp(toks[i], "from=", 5)) from.u = strtoull(toks[i] + 5, NULL, 16);
+				else if (!strncmp(toks[i], "ds=", 3)) from = dt_strp(toks[i] + 3, NULL, 0U);
+				else if (!strncmp(toks[i], "n=", 2)) n = strtoul(toks[i] + 2, NULL, 10);
+				else if (!strncmp(toks[i], "zone=", 5)) zone = toks[i] + 5;
+				else if (!strncmp(toks[i], "scale=", 6)) sc = atoi(toks[i] + 6);
+			}
+			if (sc) from = echs_instant_attach_scale(from, (echs_scale_t)sc);
+			if (zone) from = echs_instant_attach_tzob(from, echs_tzob(zone, strlen(zone)));
+			echs_evstrm_t st = echs_make_evstrm_rrul(from, &r, 1U);
+			int first = 1;
+			for (size_t j = 0; st && j < n; j++) {
+				echs_event_t e = echs_evstrm_pop(st);
+				if (echs_event_0_p(e)) { printf("%s-", first ? "" : ","); first = 0; break; }
+				printf("%s%016llx", first ? "" : ",", (unsigned long long)e.from.u); first = 0;
+			}
+			if (first) printf("-");
+			putchar('\n');
+			if (st) free_echs_evstrm(st);
 		} else if (!strcmp(toks[0], "m.run")) {
 			int hash = 1;
 			while (hash < ntk && strcmp(toks[hash], "#")) hash++;
